@@ -1,6 +1,6 @@
 (* C18 - Partitioners are deterministic, in range, Java-compatible and fair.
    Theorem statements only; proofs live in Proofs/.  Never weaken a statement here. *)
-From AV Require Import Base.Util Model.Murmur Model.Partitioner Proofs.MurmurJava Proofs.PartitionerFacts.
+From AV Require Import Base.Util Model.Murmur Model.Partitioner Proofs.MurmurJava Proofs.PartitionerFacts Proofs.PartitionerUtf8.
 
 (* The Python hash equals Java's Utils.murmur2 (int32 semantics) on every byte string. *)
 Theorem C18_murmur_java : forall data, bytes_ok data = true ->
@@ -20,11 +20,40 @@ Theorem C18_in_range : forall key parts, parts <> [] ->
 Proof. exact hashed_in_range. Qed.
 Print Assumptions C18_in_range.
 
-(* Text keys are hashed through their UTF-8 bytes. *)
+(* The partition ID: on the list [0; 1; ...; n-1] (what KafkaClient hands to the partitioner for a topic whose
+   partitions are numbered 0..n-1) afkak selects exactly the id the Java client computes,
+   Utils.toPositive(Utils.murmur2(keyBytes)) % numPartitions. *)
+Theorem C18_partition_java_ids : forall key (n : nat), bytes_ok key = true -> (0 < n)%nat ->
+  hashed_partition key (map Z.of_nat (seq 0 n)) = Some (java_partition (map sbyte key) (Z.of_nat n)).
+Proof. exact partition_java_ids. Qed.
+Print Assumptions C18_partition_java_ids.
+
+(* java_partition uses the mathematical mod; Java's % truncates towards zero.  toPositive(..) is non-negative,
+   so for a positive partition count the two coincide (Z.rem is the truncating remainder). *)
+Theorem C18_java_partition_is_java_rem : forall data n, 0 < n ->
+  java_partition data n = Z.rem (Z.land (murmur2_java data) 0x7FFFFFFF) n /\ 0 <= java_partition data n < n.
+Proof. exact java_partition_java_rem. Qed.
+Print Assumptions C18_java_partition_is_java_rem.
+
+(* Text keys.  The model's encoder utf8 (standing for bytearray(key, "UTF-8"); tied to CPython by the differential
+   run) is pinned by the RFC 3629 DECODER utf8_decode, an independent definition: the bytes a text key is hashed
+   through decode back to exactly that text, are bytes, and the text key selects what its byte form selects.
+   Because utf8_decode accepts only shortest forms, this determines the encoder uniquely. *)
 Theorem C18_text_utf8 : forall cps key parts, utf8 cps = Some key ->
-  hashed_partition_text cps parts = hashed_partition key parts.
-Proof. exact text_utf8_agree. Qed.
+  utf8_decode key = Some cps /\ bytes_ok key = true /\ hashed_partition_text cps parts = hashed_partition key parts.
+Proof. exact text_utf8_spec. Qed.
 Print Assumptions C18_text_utf8.
+
+(* ... and the encoder is defined exactly on sequences of Unicode scalar values (a lone surrogate raises). *)
+Theorem C18_utf8_defined : forall cps, (exists key, utf8 cps = Some key) <-> forallb is_scalar cps = true.
+Proof. exact utf8_defined. Qed.
+Print Assumptions C18_utf8_defined.
+
+(* text key, list [0..n-1]: the id the Java client computes for the key's UTF-8 bytes *)
+Theorem C18_text_partition_java_ids : forall cps key (n : nat), utf8 cps = Some key -> (0 < n)%nat ->
+  hashed_partition_text cps (map Z.of_nat (seq 0 n)) = Some (java_partition (map sbyte key) (Z.of_nat n)).
+Proof. exact text_partition_java_ids. Qed.
+Print Assumptions C18_text_partition_java_ids.
 
 (* Round robin: from ANY reachable state (whatever list it last saw, whatever position), any window
    of k*n calls with the same ascending list selects each partition exactly k times
@@ -51,7 +80,7 @@ Theorem C18_rr_restart : forall s parts st, rr_sorted s <> parts -> parts <> [] 
 Proof. exact rr_restart. Qed.
 Print Assumptions C18_rr_restart.
 
-(* ---- non-vacuity and independent reference vectors (Apache Kafka UtilsTest.testMurmur2) ---- *)
+(* ---- non-vacuity and independent reference vectors (Apache Kafka UtilsTest.testMurmur2: ASCII, residues 2,2,3,2) ---- *)
 Example java_vec_21 : murmur2_java [50; 49] = -973932308. Proof. vm_compute. reflexivity. Qed.
 Example java_vec_foobar : murmur2_java [102; 111; 111; 98; 97; 114] = -790332482. Proof. vm_compute. reflexivity. Qed.
 Example java_vec_abc : murmur2_java [97; 98; 99] = 479470107. Proof. vm_compute. reflexivity. Qed.
@@ -60,6 +89,21 @@ Example java_vec_long : murmur2_java
   = -1486304829. Proof. vm_compute. reflexivity. Qed.
 Example java_vec_highbytes : murmur2_java (map sbyte [200; 255; 128; 7; 129]) mod 0x100000000 = pure_murmur2 [200; 255; 128; 7; 129].
 Proof. vm_compute. reflexivity. Qed.
+(* values produced by a real JVM (harness/corpus/C18/Murmur2Ref.java = Kafka's Utils.murmur2 verbatim, OpenJDK 17):
+   keys made of bytes >= 0x80 only, one per length residue 0,1,2,3, plus the empty key; the check compares ALL 3690
+   vectors of harness/corpus/C18/java_murmur2_vectors.json with murmur2_java and with the real pure_murmur2 on every run *)
+Example jvm_vec_res0 : murmur2_java (map sbyte [254; 157; 166; 141]) = 1497208136. Proof. vm_compute. reflexivity. Qed.
+Example jvm_vec_res1 : murmur2_java (map sbyte [143; 238; 234; 215; 167]) = -434530056. Proof. vm_compute. reflexivity. Qed.
+Example jvm_vec_res2 : murmur2_java (map sbyte [148; 248; 168; 142; 136; 247]) = -667711005. Proof. vm_compute. reflexivity. Qed.
+Example jvm_vec_res3 : murmur2_java (map sbyte [225; 217; 234; 151; 183; 139; 167]) = -314971542. Proof. vm_compute. reflexivity. Qed.
+Example jvm_vec_empty : murmur2_java [] = 275646681. Proof. vm_compute. reflexivity. Qed.
+Example jvm_partition_res2 : map (java_partition (map sbyte [148; 248; 168; 142; 136; 247])) [1; 2; 3; 7; 12; 50; 1000]
+  = [0; 1; 2; 6; 11; 43; 643]. Proof. vm_compute. reflexivity. Qed.
+Example partition_ids_nonvacuous : hashed_partition [148; 248; 168; 142; 136; 247] (map Z.of_nat (seq 0 12)) = Some 11.
+Proof. vm_compute. reflexivity. Qed.
+Example text_utf8_nonvacuous : utf8 [0x75; 0xE9; 0x20AC; 0x1F600] = Some [0x75; 0xC3; 0xA9; 0xE2; 0x82; 0xAC; 0xF0; 0x9F; 0x98; 0x80]
+  /\ utf8 [0xD800] = None /\ utf8_decode [0xC0; 0x80] = None /\ utf8_decode [0xED; 0xA0; 0x80] = None.
+Proof. repeat split; vm_compute; reflexivity. Qed.
 Example rr_fair_nonvacuous :
   exists s, rr_set [3; 1; 2] 2 = Some s /\ rr_inv s /\ zsort [1; 2; 3] = [1; 2; 3] /\
             rr_run s (map (fun st => ([1; 2; 3], st)) [0; 0; 0; 0; 0; 0]%nat) = [2; 3; 1; 2; 3; 1].
